@@ -71,30 +71,30 @@ theorem A4_step {old cur0 : List EP} {cv : Prop} {W : Walk} (h : WInv old cur0 c
 
 /-! ### `copyEmpty` -/
 
-theorem setName_last (l : List EP) (x : EP) (nm : String) :
-    setName (l ++ [x]) ((l ++ [x]).length - 1) nm = l ++ [{ x with name := nm }] := by
+theorem setSlot_last (l : List EP) (x : EP) (nm ck : String) :
+    setSlot (l ++ [x]) ((l ++ [x]).length - 1) nm ck = l ++ [{ x with name := nm, cookie := ck }] := by
   have key : ∀ (l : List EP) (f : EP → EP), (l ++ [x]).modify l.length f = l ++ [f x] := by
     intro l f
     induction l with
     | nil => rfl
     | cons y l ih => simp only [List.cons_append, List.length_cons, List.modify_succ_cons, ih]
   have hl : (l ++ [x]).length - 1 = l.length := by simp
-  unfold setName
+  unfold setSlot
   rw [hl, key]
 
 /-- the step of `copyEmpty` -/
 def cpStep (b : Back) (slot : EP) : Back :=
   let b := addEmpty b
-  { b with eps := setName b.eps (b.eps.length - 1) slot.name }
+  { b with eps := setSlot b.eps (b.eps.length - 1) slot.name slot.cookie }
 
 theorem cpStep_eps (b : Back) (slot : EP) :
-    ∃ nm, (cpStep b slot).eps = b.eps ++ [{ mkEmpty nm b.initialWeight with name := slot.name }] ∧
+    ∃ nm, (cpStep b slot).eps = b.eps ++ [{ mkEmpty nm b.initialWeight with name := slot.name, cookie := slot.cookie }] ∧
       (cpStep b slot).initialWeight = b.initialWeight := by
   unfold cpStep addEmpty
-  exact ⟨_, setName_last _ _ _, rfl⟩
+  exact ⟨_, setSlot_last _ _ _ _, rfl⟩
 
-theorem loadSrv_mkEmpty_name (nm n' : String) (w : Int) :
-    loadSrv { mkEmpty nm w with name := n' } = loadSrv (mkEmpty n' w) := by
+theorem loadSrv_mkEmpty_name (nm n' ck : String) (w : Int) :
+    loadSrv { mkEmpty nm w with name := n', cookie := ck } = loadSrv (mkEmpty n' w) := by
   simp [loadSrv, mkEmpty]
 
 theorem cpFold_load (iw : Int) (slots : List EP) : ∀ b : Back, b.initialWeight = iw →
